@@ -110,6 +110,7 @@ class Engine(object):
         self.vc_timeout_ms = 20000
         self.cvc5_timeout_s = 20
         self.max_unroll = 70
+        self.default_elem = None   # element kind used when a concrete list meets a symbolic sequence
         self.cvc5_for_branches = True
         self.cvc5_branch_timeout_s = 10
         self.stats = {"paths": 0, "branch_checks": 0, "solver_time": 0.0}
@@ -212,6 +213,7 @@ class Ctx(InterpMixin, ModelsMixin):
         self.entry_ns = {}
         self.elem_cache = {}      # element kind -> {ref id: (ref, materialised object)}
         self.fold_done = set()
+        self.default_elem = engine.default_elem
         self.be_cache = {}        # (Int term id, width) -> (term, byte terms): canonical big-endian bytes
         self.applied = {}         # callee function -> (contract, namespace) of its last application
 
